@@ -698,6 +698,9 @@ class CShapes:
                 elif iv[0] == "arr":
                     out.extend(iv[1])
                     pos += 1
+                elif iv[0] == "list" and all(x[0] in ("int", "scalar") for x in iv[1]):
+                    out.append(len(iv[1]))     # fancy index with a list of integers
+                    pos += 1
                 else:
                     return UNKNOWN
         out += dims[pos:]
@@ -731,12 +734,23 @@ class CShapes:
             if not items:
                 return ("arr", (0,))
             first = items[0]
+            if any(x == UNKNOWN for x in items):
+                return UNKNOWN       # an element of unknown shape: the shape of the array is unknown too
             if first[0] == "list":
                 inner = first[1]
                 return ("arr", (len(items), len(inner)))
             if first[0] == "arr":
                 return ("arr", (len(items),) + tuple(first[1]))
             return ("arr", (len(items),))
+        if fn == "np.cross" and len(args) == 2 and args[0][0] == "arr" and args[1][0] == "arr":
+            return self.bcast(args[0], args[1], e)
+        if isinstance(e.func, ast.Attribute) and e.func.attr in ("prod", "sum", "min", "max", "mean") and not e.args \
+                and "axis" not in kw and not fn.startswith("np."):
+            recv = self.ev(e.func.value)
+            if recv[0] in ("arr", "scalar", "int"):
+                return SCALAR
+        if fn in ("abs", "float", "np.float64") and args and args[0][0] in ("scalar", "int"):
+            return SCALAR
         if fn == "np.linalg.norm" and args and args[0][0] == "arr":
             ax = kw.get("axis")
             if ax is None:
